@@ -456,6 +456,8 @@ fn probe_items() -> Vec<S> {
 // ------------------------------------------------------------------ mutation of real ASTs
 struct Mut<'a> {
     rng: &'a mut Rng,
+    /// struct-typed locals in scope: (name, type, first field, its type)
+    structs: Vec<(String, S, String, S)>,
     k: usize,
     tags: BTreeMap<&'static str, usize>,
     budget: usize,
@@ -473,6 +475,12 @@ impl Mut<'_> {
     /// statements to insert at one position; `ints` are the int32 variables visible there
     fn injection(&mut self, ints: &[String]) -> Vec<S> {
         let pick_int = |rng: &mut Rng| -> Option<String> { if ints.is_empty() { None } else { Some(rng.pick(ints).clone()) } };
+        if !self.structs.is_empty() && self.rng.chance(1, 4) {
+            // `var dead T = x.f`: what an unused tuple component / struct field looks like before DCE
+            self.tag("dead-field-projection");
+            let (x, t, f, ft) = self.rng.pick(&self.structs).clone();
+            return vec![vardecl(&self.fresh("dead"), ft.clone(), Some(tagged("field", vec![a(&f), ft, var(&x, t)])))];
+        }
         match self.rng.below(12) {
             0 => {
                 self.tag("dead-pure-literal");
@@ -588,6 +596,7 @@ impl Mut<'_> {
     fn block(&mut self, stmts: &[S], ints: &mut Vec<String>, p: u64) -> Vec<S> {
         let mut out = Vec::new();
         let base = ints.len();
+        let sbase = self.structs.len();
         for st in stmts {
             if self.budget > 0 && self.rng.chance(p, 100) {
                 self.budget -= 1;
@@ -600,9 +609,15 @@ impl Mut<'_> {
                 if atom(t) == Some("i32") {
                     ints.push(atom(x).unwrap_or("").to_string());
                 }
+                if let Some(("struct", [_, f0, ..])) = head(t) {
+                    if let Some([fname, fty]) = list(f0) {
+                        self.structs.push((atom(x).unwrap_or("").to_string(), t.clone(), atom(fname).unwrap_or("").to_string(), fty.clone()));
+                    }
+                }
             }
         }
         ints.truncate(base);
+        self.structs.truncate(sbase);
         out
     }
 
@@ -659,7 +674,7 @@ fn keep_unit_item() -> S {
 
 fn mutate_file(file: &S, rng: &mut Rng) -> (S, String) {
     let Some(("gofile", items)) = head(file) else { return (file.clone(), String::new()) };
-    let mut m = Mut { rng, k: 0, tags: BTreeMap::new(), budget: 6 };
+    let mut m = Mut { rng, structs: Vec::new(), k: 0, tags: BTreeMap::new(), budget: 6 };
     let mut out: Vec<S> = Vec::new();
     let has_fmt = items.iter().any(|it| match head(it) {
         Some(("import", specs)) => specs.iter().any(|sp| matches!(list(sp), Some([_, p]) if atom(p) == Some("fmt"))),
